@@ -168,6 +168,8 @@ def run(ctx):
         raise ToolError("vacuous run: no export request for an unconfigured name / no case-twin file / no settings built")
     if ctx.thorough and (cnt.get("wizard_runs", 0) == 0 or cnt.get("endpoint_exports", 0) == 0) and not r["violations"]:
         raise ToolError("the wizard / endpoint binaries were never exercised")
+    import binconf_jobs
+    conf_files = binconf_jobs.run_c13(ctx)      # settings files key by key, path keys through links, the real binary on configuration files
     accepted, by_kind, ts = validate_trace(ctx, os.path.join(ctx.work, "c13.result.json.trace.ndjson"))
     for f in (creds["out"], start["out"]):
         if ctx.thorough and os.path.getsize(f) > 50 * 1024 * 1024:
@@ -182,6 +184,7 @@ def run(ctx):
         "pem_files": n_pem,
         "recorded_traces": accepted,
         "recorded_traces_by_kind": by_kind,
+        "configuration_files": conf_files,
         "evaluations": r["evaluations"], "distinct_nontrivial": r["distinct_nontrivial"],
         "rule": "one evaluation = one comparison against a TLC-predicted value: a credentials file loaded through toml::from_str::<Settings> "
                 "(clients), one authenticator probe, one exported configuration parsed back (and its pair put to the authenticator), one export request for an unconfigured look-alike name (must be refused), "
@@ -216,4 +219,4 @@ def run(ctx):
         "the interactive wizard (several users) cannot be driven without a terminal; only the non-interactive single-user path is run",
         "quick tier does not run the setup_wizard / trusttunnel_endpoint binaries (WizardRoundTrip is then bound only through the spec-written wizard files read by the real loader)",
         "trusted: TLC, the code-point <-> text conversion and the fixture certificate of the harness, the `toml` crate used to parse the exported configuration back",
-    ])
+    ] + binconf_jobs.ASSUMPTIONS)
